@@ -4,7 +4,7 @@
 
   cfg token (17 fields, `;` separated):
     trend;npqm;detrending;lower_bound;lower_threshold;upper_bound;upper_threshold;impute;sigtest;only_within;
-    freq;ela;ks;ecdf;iecdf;mode;rice
+    freq;ela;ks;ecdf;iecdf;mode;rice[;scale_by_annual_cycle;window_length_annual_cycle]
   (bools `0|1`; bounds `-inf|inf|num/den`; trend `additive|multiplicative|mixed|bounded`; mode `normal|isimipv3.0`)
   oracle token: `sigO sigH sigF ksGood` as four bits, e.g. `0011`.
   function oracles (cos, logit, expit) are sent as tables `inputs outputs` (the recorded float arguments and
@@ -51,8 +51,8 @@ def trend? : String → Option TrendMethod
 def mode? : String → Option NpqmMode
   | "normal" => some .normal | "isimipv3.0" => some .isimipv30 | _ => none
 
-def cfg? (s : String) : Option Cfg :=
-  match s.splitOn ";" with
+def cfg17? (l : List String) : Option Cfg :=
+  match l with
   | [tm, npqm, detr, lb, lt, ub, ut, imp, sigt, only, freq, ela, ks, em, im, mode, rice] => do
     pure { trendMethod := ← trend? tm, nonparametricQm := ← bool? npqm, detrending := ← bool? detr,
            lowerBound := ← ext? lb, lowerThreshold := ← ext? lt, upperBound := ← ext? ub, upperThreshold := ← ext? ut,
@@ -61,6 +61,17 @@ def cfg? (s : String) : Option Cfg :=
            eventLikelihoodAdjustment := ← bool? ela, ksTest := ← bool? ks, ecdfMethod := ← ecdfM? em,
            iecdfMethod := ← iecdfM? im, modeNpqm := ← mode? mode, riceOrWeibull := ← bool? rice }
   | _ => none
+
+/-- 17 fields, optionally followed by `scale_by_annual_cycle_of_upper_bounds;window_length_annual_cycle_of_upper_bounds` -/
+def cfg? (s : String) : Option Cfg :=
+  let l := s.splitOn ";"
+  if l.length = 19 then do
+    let c ← cfg17? (l.take 17)
+    pure { c with scaleByAnnualCycle := ← bool? (l.getD 17 ""), windowLengthAnnualCycle := ← (l.getD 18 "").toNat? }
+  else cfg17? l
+
+def optRats? (s : String) : Option (List (Option Rat)) :=
+  parseList? (fun t => if t = "none" then some none else (parseRat? t).map some) s
 
 /-- a function oracle from a recorded table: value at the nearest recorded argument (`scale` converts the model's
     argument into the unit of the recorded one) -/
@@ -123,6 +134,16 @@ def flagIsclose (c : Cfg) (obs H F : List Rat) : Bool :=
     let tol := (1 : Rat) / 100000000 + (1 : Rat) / 100000 * Py.absQ t.1
     decide (Py.absQ (Py.absQ (t.2 - t.1) - tol) ≤ eps * (1 + Py.absQ t.1)))
 
+/-- step 2: equal valid values, or equal interpolated ranks (the order of the imputed values is then the sort's choice) -/
+def flagStep2 (x : List (Option Rat)) : Bool :=
+  let valid := x.filterMap id
+  if valid.length < 2 then false else
+  let idxInv := Py.whereTrue (x.map (fun v => v.isNone))
+  let idxValid := (Py.whereTrue (x.map (fun v => v.isSome))).map (fun (i : Nat) => (i : Rat))
+  let ranks := (rankOf valid).map (fun (i : Nat) => (i : Rat))
+  let interp := idxInv.map (fun (i : Nat) => interp1dExtrap idxValid ranks (i : Rat))
+  decide (valid.eraseDups.length ≠ valid.length) || decide (interp.eraseDups.length ≠ interp.length)
+
 def showFlags (fs : List (String × Bool)) : String :=
   let l := (fs.filter (·.2)).map (·.1)
   if l.isEmpty then "-" else ",".intercalate l
@@ -169,18 +190,20 @@ def step (line : String) : String :=
     match cfg? c, rats? F, rats? tr with
     | some c, some F, some tr => s!"ok {out (step7 c F tr)}"
     | _, _, _ => "bad-op"
-  | ["window", c, bits, obs, H, F, yO, yH, yF, lo, lh, lf, uo, uh, uf, ci, co, li, lo', ei, eo, l10] =>
-    match cfg? c, rats? obs, rats? H, rats? F, ints? yO, ints? yH, ints? yF with
-    | some c, some obs, some H, some F, some yO, some yH, some yF =>
+  | ["window", c, bits, obs, H, F, yO, yH, yF, lo, lh, lf, uo, uh, uf, io, ih, iff, ci, co, li, lo', ei, eo, l10] =>
+    match cfg? c, optRats? obs, optRats? H, optRats? F, ints? yO, ints? yH, ints? yF with
+    | some c, some obsM, some HM, some FM, some yO, some yH, some yF =>
       match rats? lo, rats? lh, rats? lf, rats? uo, rats? uh, rats? uf, rats? ci, rats? co with
       | some lo, some lh, some lf, some uo, some uh, some uf, some ci, some co =>
-        match orc? bits ci co, rats? li, rats? lo', rats? ei, rats? eo, parseRat? l10 with
-        | some o, some li, some lo', some ei, some eo, some l10 =>
+        match orc? bits ci co, rats? li, rats? lo', rats? ei, rats? eo, parseRat? l10, rats? io, rats? ih, rats? iff with
+        | some o, some li, some lo', some ei, some eo, some l10, some io, some ih, some iff =>
           let o := elaOracles o li lo' ei eo l10
-          let d : Draws := { lowO := lo, lowH := lh, lowF := lf, upO := uo, upH := uh, upF := uf }
-          -- the pipeline stage by stage (for the flags and the step-6 trace), cross-checked against `applyOnWindow`
-          let (o3, h3, f3, tr) := step3 c o obs H F yO yH yF
+          let d : Draws := { lowO := lo, lowH := lh, lowF := lf, upO := uo, upH := uh, upF := uf,
+                             impO := io, impH := ih, impF := iff }
+          -- the pipeline stage by stage (for the flags and the step-6 trace), cross-checked against `applyOnWindowImpute`
           let staged : Except String (Step6Out × List Rat × String) := do
+            let (obs, H, F) ← step2 c d obsM HM FM
+            let (o3, h3, f3, tr) := step3 c o obs H F yO yH yF
             let (o4, h4, f4) ← step4 c d o3 h3 f3
             let oF ← step5 c o o4 h4 f4
             let r ← step6Full c ratSigmoid o o4 oF h4 f4
@@ -188,17 +211,40 @@ def step (line : String) : String :=
               ("half", flagHalf c o4 h4 f4),
               ("isclose", flagIsclose c o4 h4 f4),
               ("thr", flagThr c obs o3 || flagThr c H h3 || flagThr c F f3 || flagThr c o4 oF),
-              ("ctie", flagCtie F f3)]
+              ("ctie", flagCtie F f3),
+              ("ctie2", c.imputeMissingValues && (flagStep2 obsM || flagStep2 HM || flagStep2 FM))]
             pure (r, step7 c r.result tr, flags)
-          match staged, applyOnWindow c ratSigmoid o d obs H F yO yH yF with
+          match staged, applyOnWindowImpute c ratSigmoid o d obsM HM FM yO yH yF with
           | .ok (r, res, flags), .ok res' =>
             if res == res' then s!"ok {out res} {r.nL} {r.nU} {branchName r.branch} {if r.premapped then 1 else 0} {flags}"
             else "selfcheck-fail"
           | .error e, .error e' => if e == e' then err e else "selfcheck-fail"
           | _, _ => "selfcheck-fail"
-        | _, _, _, _, _, _ => "bad-op"
+        | _, _, _, _, _, _, _, _, _ => "bad-op"
       | _, _, _, _, _, _, _, _ => "bad-op"
     | _, _, _, _, _, _, _ => "bad-op"
+  | ["step2", c, x, u] =>
+    match cfg? c, optRats? x, rats? u with
+    | some c, some x, some u =>
+      match step2Impute c x u with
+      | .ok r =>
+        s!"ok {out r} {showFlags [("ctie", flagStep2 x)]}"
+      | .error e => err e
+    | _, _, _ => "bad-op"
+  | ["step1", c, obs, H, F, dO, dH, dF] =>
+    match cfg? c, rats? obs, rats? H, rats? F, ints? dO, ints? dH, ints? dF with
+    | some c, some obs, some H, some F, some dO, some dH, some dF =>
+      match step1 c obs H F dO dH dF with
+      | .ok (o, h, f, cyc) => s!"ok {out o} {out h} {out f} {match cyc with | some l => out l | none => "none"}"
+      | .error e => err e
+    | _, _, _, _, _, _, _ => "bad-op"
+  | ["step8", c, F, cyc, dF] =>
+    match cfg? c, rats? F, (if cyc = "none" then some none else (rats? cyc).map some), ints? dF with
+    | some c, some F, some cyc, some dF =>
+      match step8 c F cyc dF with
+      | .ok r => s!"ok {out r}"
+      | .error e => err e
+    | _, _, _, _ => "bad-op"
   | _ => "bad-op"
 
 def main : IO Unit := do loop (← IO.getStdin) step
